@@ -197,6 +197,7 @@ Not decided: that every mentioned name is declared or imported (program dependen
     shapes(m, ctx);
     dispatch_agreement(m, ctx, "C18.dispatch", "Typescript", "generate", "t.ty");
     comment_lines(m, ctx);
+    enumeral_comment_lines(m, ctx);
     bit_string_shape(m, ctx);
     imports(m, ctx);
     values(m, ctx);
@@ -334,6 +335,59 @@ fn comment_lines(m: &Model, ctx: &mut Ctx) {
             }
             Ok(o) => ctx.fail_closed("C18.comment", &format!("[{}]: {}", label, o.show())),
             Err(e) => ctx.fail_closed("C18.comment", &format!("[{}]: {}", label, e)),
+        }
+    }
+}
+
+/// C18.comment (enumerals): the description of an enumeral (the ASN.1 comment behind its comma) is written behind the member
+/// as a `//` comment. The fold closure of Typescript::generate_enumerated is evaluated on descriptions containing each
+/// ECMAScript line terminator: whatever follows the member's own line must again be inside a `//` comment.
+fn enumeral_comment_lines(m: &Model, ctx: &mut Ctx) {
+    use crate::eval::{Env, Evaluator, Val};
+    use std::collections::BTreeMap as Map;
+    let Some(f) = m.fns.iter().find(|f| f.name == "generate_enumerated" && f.self_ty.as_deref() == Some("Typescript")) else {
+        ctx.fail_closed("C18.comment", "anchor not found: Typescript::generate_enumerated");
+        return;
+    };
+    ctx.func(&f.key);
+    struct C { out: Vec<syn::ExprClosure> }
+    impl model::DeepCb for C {
+        fn expr(&mut self, e: &syn::Expr) {
+            if let syn::Expr::MethodCall(mc) = e {
+                if mc.method == "fold" && mc.args.len() == 2 {
+                    if let syn::Expr::Closure(c) = &mc.args[1] {
+                        self.out.push(c.clone());
+                    }
+                }
+            }
+        }
+    }
+    let mut c = C { out: vec![] };
+    model::deep_walk_block(&f.block, &mut c);
+    let Some(clo) = c.out.into_iter().find(|c| tok(&c.body).contains("description")) else {
+        // the members are rendered some other way: the description may not be written at all, which is fine
+        ctx.oblige("C18.comment", "enumeral:not-rendered-by-a-fold", true);
+        return;
+    };
+    let consts = const_resolver(m);
+    let mut inl = inline_all(m, &[]);
+    inl.retain(|k, _| k == "format_comments" || k == "to_jer_identifier");
+    let ev = Evaluator { consts: &consts, call_hook: &crate::eval::no_hook, inline: Some(&inl) };
+    for (label, text) in [("LF", " one\n two */ export x"), ("CR", " one\r two */ export x"), ("CRLF", " one\r\n two"), ("U+2028", " one\u{2028} two"), ("U+2029", " one\u{2029} two"), ("none", " one two")] {
+        ctx.oblige("C18.comment", &format!("enumeral:{}", label), true);
+        let en = Val::Ctor("Enumeral".into(), vec![], [("name".to_string(), Val::Str("red".into())), ("index".to_string(), Val::int(0)), ("description".to_string(), Val::some(Val::Str(text.into())))].into_iter().collect::<Map<_, _>>());
+        match ev.apply_closure(&syn::Expr::Closure(clo.clone()), &[Val::Str(String::new()), en], &Env::new()) {
+            Ok(Val::Str(out)) => {
+                let mut lines = out.split(['\n', '\r', '\u{2028}', '\u{2029}']);
+                let _member_line = lines.next();
+                let bad: Vec<&str> = lines.filter(|l| !l.trim().is_empty() && !l.trim_start().starts_with("//")).collect();
+                if !bad.is_empty() {
+                    ctx.violate("C18.comment", &format!("enumeral-line-outside-comment:{}", label), &f.file, f.line,
+                        &format!("an enumeral whose comment contains {} is rendered {:?}: the line {:?} is not inside a `//` comment — the rest of the ASN.1 comment is read as TypeScript inside the enum", label, out, bad[0]));
+                }
+            }
+            Ok(o) => ctx.fail_closed("C18.comment", &format!("[enumeral {}]: {}", label, o.show().chars().take(100).collect::<String>())),
+            Err(e) => ctx.fail_closed("C18.comment", &format!("[enumeral {}]: {}", label, e)),
         }
     }
 }
